@@ -55,7 +55,7 @@ Lemma normal_ret_spec ev old new : ast_event ev = true -> plain old = true -> pl
   /\ plain (fst (step_spec (HRet new) old)) = true.
 Proof.
   unfold ast_event. intros He Ho Hn Hs. apply negb_true_iff in He. apply orb_false_iff in He as [H1 H2].
-  unfold handle_normal_emit_return. rewrite H1, H2. cbn.
+  unfold handle_normal_emit_return. rewrite ?H1, ?H2. cbn.
   destruct new; cbn in *; try discriminate; auto.
 Qed.
 
@@ -78,7 +78,7 @@ Proof.
       * cbn in Hout. destruct (rv_is new RSkipAll) eqn:Es.
         { destruct new; cbn in Es; try discriminate. cbn.
           unfold handle_skipall_emit_return. unfold ast_event in He. apply negb_true_iff in He.
-          apply orb_false_iff in He as [H1 H2]. rewrite H1, H2. cbn. eexists; split; eauto. }
+          apply orb_false_iff in He as [H1 H2]. rewrite ?H1, ?H2. cbn. eexists; split; eauto. }
         destruct (normal_ret_spec ev v new He Hv Hout Es) as [Hn Hpl]. rewrite Hn.
         destruct (step_spec (HRet new) v) as [w vd] eqn:Est. cbn [fst snd] in *.
         destruct vd.
@@ -89,13 +89,13 @@ Proof.
       * cbn [step_spec].
         assert (Hn : handle_normal_emit_return sys_tracer_obj ev v RNone = (v, false)).
         { unfold handle_normal_emit_return. unfold ast_event in He. apply negb_true_iff in He.
-          apply orb_false_iff in He as [H1 H2]. rewrite H1, H2. reflexivity. }
+          apply orb_false_iff in He as [H1 H2]. rewrite ?H1, ?H2. reflexivity. }
         rewrite Hn.
         destruct (IH (S hi) v (if event_eqb ev E_before_stmt then Some v else th) (log ++ [(ti, hi, v)]) Hp' Hv)
           as (th' & E1 & E2). rewrite E1. eexists; split; eauto.
     + assert (Hn : handle_normal_emit_return sys_tracer_obj ev v RNone = (v, false)).
       { unfold handle_normal_emit_return. unfold ast_event in He. apply negb_true_iff in He.
-        apply orb_false_iff in He as [H1 H2]. rewrite H1, H2. reflexivity. }
+        apply orb_false_iff in He as [H1 H2]. rewrite ?H1, ?H2. reflexivity. }
       cbn [rv_is]. rewrite Hn.
       destruct (IH (S hi) v (if event_eqb ev E_before_stmt then Some v else th) log Hp' Hv) as (th' & E1 & E2).
       rewrite E1. eexists; split; eauto.
@@ -201,3 +201,92 @@ Example before_stmt_two_tracers_now_fine :
   let '(r, _, ths, _) := emit E_before_stmt true fl0 ts RNone in
   before_stmt_action r (last ths None) = RunReplacement (RUser 7 false).
 Proof. vm_compute. reflexivity. Qed.
+
+(* ---- since the return rule no longer singles out 'call' / 'exception' (tracer.py, after the repair): the same, for EVERY event *)
+Lemma normal_ret_spec_any ev old new : plain old = true -> plain new = true ->
+  rv_is new RSkipAll = false ->
+  handle_normal_emit_return sys_tracer_obj ev old new =
+    (fst (step_spec (HRet new) old), match snd (step_spec (HRet new) old) with StopTracer => true | _ => false end)
+  /\ plain (fst (step_spec (HRet new) old)) = true.
+Proof.
+  intros Ho Hn Hs.
+  unfold handle_normal_emit_return. rewrite ?H1, ?H2. cbn.
+  destruct new; cbn in *; try discriminate; auto.
+Qed.
+
+Lemma handlers_refine_any ev ti : forall hs hi v th log, handlers_plain hs -> plain v = true ->
+  exists th',
+  handlers_loop ev false false ti hi hs v th log =
+    (match spec_tracer ti hi hs v log with
+     | (w, true, _) => TVal (RTuple2 RSkipAll w)
+     | (w, false, _) => TVal w end, th', snd (spec_tracer ti hi hs v log))
+  /\ plain (fst (fst (spec_tracer ti hi hs v log))) = true.
+Proof.
+  intros hs. induction hs as [|h hs IH]; intros hi v th log Hp Hv.
+  - cbn. eauto.
+  - assert (Hp' : handlers_plain hs) by (intros h' v' Hin; apply Hp; now right).
+    cbn [handlers_loop spec_tracer]. cbn [andb negb].
+    destruct (h_guard_skip h) eqn:Eg; cbn [orb]; [apply IH; auto|].
+    destruct (h_pred h) eqn:Epred; cbn [negb].
+    + pose proof (Hp h v (or_introl eq_refl)) as Hout.
+      destruct (h_fun h v) as [new|] eqn:Ef.
+      * cbn in Hout. destruct (rv_is new RSkipAll) eqn:Es.
+        { destruct new; cbn in Es; try discriminate. cbn.
+          unfold handle_skipall_emit_return. cbn. eexists; split; eauto. }
+        destruct (normal_ret_spec_any ev v new Hv Hout Es) as [Hn Hpl]. rewrite Hn.
+        destruct (step_spec (HRet new) v) as [w vd] eqn:Est. cbn [fst snd] in *.
+        destruct vd.
+        -- destruct (IH (S hi) w (if event_eqb ev E_before_stmt then Some w else th) (log ++ [(ti, hi, v)]) Hp' Hpl)
+             as (th' & E1 & E2). rewrite E1. eexists; split; eauto.
+        -- cbn. eexists; split; eauto.
+        -- destruct new; cbn in Est; try discriminate; inversion Est.
+      * cbn [step_spec].
+        assert (Hn : handle_normal_emit_return sys_tracer_obj ev v RNone = (v, false)).
+        { reflexivity. }
+        rewrite Hn.
+        destruct (IH (S hi) v (if event_eqb ev E_before_stmt then Some v else th) (log ++ [(ti, hi, v)]) Hp' Hv)
+          as (th' & E1 & E2). rewrite E1. eexists; split; eauto.
+    + assert (Hn : handle_normal_emit_return sys_tracer_obj ev v RNone = (v, false)).
+      { reflexivity. }
+      cbn [rv_is]. rewrite Hn.
+      destruct (IH (S hi) v (if event_eqb ev E_before_stmt then Some v else th) log Hp' Hv) as (th' & E1 & E2).
+      rewrite E1. eexists; split; eauto.
+Qed.
+
+
+Lemma loop_refines_any ev : forall ts ti v log, tracers_plain ts -> plain v = true ->
+  exists ths, tracer_loop ev true false false false ti ts v log =
+              (TVal (fst (spec_all ti ts v log)), ths, snd (spec_all ti ts v log))
+              /\ plain (fst (spec_all ti ts v log)) = true.
+Proof.
+  intros ts. induction ts as [|t ts IH]; intros ti v log Hp Hv.
+  - cbn. eauto.
+  - assert (Hp' : tracers_plain ts) by (intros t' Hin; apply Hp; now right).
+    destruct (Hp t (or_introl eq_refl)) as [Hhp Hprop].
+    cbn [tracer_loop spec_all]. cbn [negb andb orb]. unfold t_active, tracer_emit.
+    destruct (t_file_ok t) eqn:Ef; cbn [negb].
+    + destruct (t_hard_disabled t) eqn:Eh; cbn [negb andb].
+      * destruct (IH (S ti) v log Hp' Hv) as (ths & E1 & E2). rewrite E1.
+        destruct v; try discriminate; eexists; split; eauto.
+      * rewrite Hprop.
+        destruct (handlers_refine_any ev ti (t_handlers t) 0 v None log Hhp Hv) as (th' & E1 & E2).
+        rewrite E1. destruct (spec_tracer ti 0 (t_handlers t) v log) as [[w stop] log'] eqn:Es. cbn [fst snd] in *.
+        destruct stop.
+        -- eexists; split; eauto.
+        -- destruct (IH (S ti) w log' Hp' E2) as (ths & E3 & E4).
+           destruct w; try discriminate; rewrite E3; eexists; split; eauto.
+    + rewrite andb_false_r. destruct (IH (S ti) v log Hp' Hv) as (ths & E1 & E2). rewrite E1.
+      eexists; split; eauto.
+Qed.
+
+
+
+(* one tracer's own fold (tracer._emit_event, the path system events take: they do not go through the stack loop), any event *)
+Theorem tracer_fold_any ev ti t v th log : handlers_plain (t_handlers t) -> t_propagate t = false -> t_hard_disabled t = false -> plain v = true ->
+  exists th', tracer_emit ev false ti t v th log =
+    (match spec_tracer ti 0 (t_handlers t) v log with (w, true, _) => TVal (RTuple2 RSkipAll w) | (w, false, _) => TVal w end,
+     th', snd (spec_tracer ti 0 (t_handlers t) v log)).
+Proof.
+  intros Hp Hpr Hd Hv. unfold tracer_emit. rewrite Hd, Hpr.
+  destruct (handlers_refine_any ev ti (t_handlers t) 0 v th log Hp Hv) as (th' & E & _). eauto.
+Qed.
